@@ -32,6 +32,14 @@ def cases(tier, rng, dist):
         ov = rng.choice(["none", "none", "zero_int", "zero_float", "half", "one", "actual", "big"])
         yield {"f": "sim", "m": m, "ov": ov, "num_perm": rng.randint(1, 6), "keep": rng.random() < 0.6,
                "plus1": rng.random() < 0.5, "seed": real_seed(rng)}
+    # larger designs, many repetitions: simulated values tie with the reference at many different counts c/(Ns R (R-1)),
+    # and the tail count must be the same whether or not the distribution is kept
+    for k in range(80 if tier == "quick" else 800):
+        R, Ns = [(4, 7), (5, 5), (4, 7), (6, 6), (5, 8), (3, 9)][k % 6]
+        q = rng.choice([0.3, 0.5, 0.7])
+        m = [[1 if rng.random() < q else 0 for _ in range(Ns)] for _ in range(R)]
+        yield {"f": "sim", "m": m, "ov": rng.choice(["none", "none", "none", "actual"]), "num_perm": 30, "keep": False,
+               "plus1": rng.random() < 0.5, "seed": real_seed(rng)}
     for _ in range(150 if tier == "quick" else 1500):
         B, S = rng.randint(1, 6), rng.randint(2, 4)
         cols = [[rng.randint(0, 3) for _ in range(B)] for _ in range(S)]
